@@ -4,6 +4,7 @@ CONSTANTS
   ANSWER_ERRORS = FALSE
   VERIFY_CKSUM = TRUE
   UNK_ERR_IS_ERR = TRUE
+  ROUTER_VERIFY_CKSUM = TRUE
 INVARIANTS NoErrorLoop NoReplyToMalformed EchoFaithful AtMostOneAnswer ChainBounded TotalBounded
 PROPERTY Termination
 CHECK_DEADLOCK FALSE
